@@ -60,12 +60,20 @@ def extreme(rng, bits):
     return rng.getrandbits(bits)
 
 
-CPS = [0x00, 0x41, 0x7f, 0x80, 0x7ff, 0x800, 0xd7ff, 0xe000, 0xfffd, 0xffff, 0x10000, 0x10ffff, 0x20ac, 0xe9]
+CPS = [0x00, 0x41, 0x7f, 0x80, 0x7ff, 0x800, 0xd7ff, 0xe000, 0xfffd, 0xffff, 0x10000, 0x10ffff, 0x20ac, 0xe9,
+       0x20, 0x0a, 0x0d, 0x09, 0xa0, 0x85, 0x3000, 0x2028, 0xfeff]
+WS = [b' ', b'\n', b'\r\n', b'\t', b'\xc2\xa0', b'\xe3\x80\x80', b'  ', b'\x00']
 
 
 def rutf8(rng, nbytes):
     """valid UTF-8 of exactly nbytes octets (nbytes >= 0)"""
     out = b''
+    # sometimes begin or end with white space (trimming must not happen anywhere)
+    head = rng.choice(WS) if nbytes >= 4 and rng.random() < 0.12 else b''
+    tail = rng.choice(WS) if nbytes >= 4 and rng.random() < 0.2 else b''
+    if head or tail:
+        mid = rutf8(rng, nbytes - len(head) - len(tail))
+        return head + mid + tail
     while len(out) < nbytes:
         left = nbytes - len(out)
         cp = rng.choice(CPS) if rng.random() < 0.5 else rng.randrange(0x110000)
